@@ -205,3 +205,69 @@ func constantIntValue(k *ssa.Const) (int64, bool) {
 	}
 	return 0, false
 }
+
+// c01WipeDecidedUnderWriteLock: the janitor removes a fragment it finds empty. "Empty" and
+// the removal belong to one write-lock region of that fragment: the Lock that covers the
+// call to wipeOutFragment also covers the test of the fragment's length. Testing under the
+// shared lock (or none) and locking afterwards lets a Put slip in between: it re-validates
+// the fragment (still registered), stores, is acknowledged — and is wiped with the fragment.
+func c01WipeDecidedUnderWriteLock(r *core.Run) {
+	const rule = "wipe-decided-under-write-lock"
+	fn := r.Need(rule, dmapPkg+".(*Service).janitor")
+	if fn == nil {
+		return
+	}
+	cnt := 0
+	for _, f := range core.AllSSA(fn.SSA) {
+		for _, w := range findInstrs(f, false, callTo(dmapPkg+".wipeOutFragment")) {
+			cnt++
+			var locks []ssa.Instruction
+			core.Instrs(f, func(in ssa.Instruction) {
+				if in.Parent() != f {
+					return
+				}
+				if c, ok := in.(*ssa.Call); ok {
+					if op, ok := isFragmentMutexOp(c); ok && op == "Lock" && core.Dominates(c, w) {
+						locks = append(locks, c)
+					}
+				}
+			})
+			ok := len(locks) > 0
+			why := "the call to wipeOutFragment is not preceded by a write lock of the fragment"
+			tests := 0
+			if ok {
+				for _, b := range f.Blocks {
+					if len(b.Instrs) == 0 {
+						continue
+					}
+					ifi, isIf := b.Instrs[len(b.Instrs)-1].(*ssa.If)
+					if !isIf || !b.Dominates(w.Block()) {
+						continue
+					}
+					bin, isBin := ifi.Cond.(*ssa.BinOp)
+					if !isBin || !(mentionsField(bin.X, "Length") || mentionsField(bin.Y, "Length")) {
+						continue
+					}
+					tests++
+					covered := false
+					for _, l := range locks {
+						if core.Dominates(l, ifi) {
+							covered = true
+						}
+					}
+					if !covered {
+						ok = false
+						why = "the fragment's length is tested at " + site(r, instrPos(ifi)) + " before the write lock is taken: a Put that lands between the test and the lock is acknowledged and then removed together with the fragment (a following Get answers not-found, NX succeeds a second time)"
+					}
+				}
+				if tests == 0 {
+					ok = false
+					why = "no test of the fragment's length guards the removal"
+				}
+			}
+			r.Check(ok, rule, fn.Name, site(r, instrPos(w)),
+				"the emptiness test and the removal share one write-lock region of the fragment", why)
+		}
+	}
+	r.Floor(rule, cnt, 1)
+}
